@@ -48,10 +48,15 @@ class Session:
         self.text = S.render(spec)
         self.ops: list = []
         self.flags = {"absent": False, "failing": False}
+        # a chart parsed with a track selection (spec["want"]: list of header names, [] included) is a
+        # chart like any other
+        want = spec.get("want")
+        pairs = None if want is None else [(L.Instrument[S.HEADERS[h][0]], L.Difficulty[S.HEADERS[h][1]])
+                                           for h in want]
         try:
-            self.chart = L.parse(self.text)
-            self.twin = L.parse(self.text)
-            ref = L.parse(self.text)
+            self.chart = L.parse(self.text, want_tracks=pairs)
+            self.twin = L.parse(self.text, want_tracks=pairs)
+            ref = L.parse(self.text, want_tracks=pairs)
         except Exception as e:  # noqa: BLE001
             ctx.fail("chart-parses", f"well-formed chart rejected: {type(e).__name__}: {e}",
                      {"spec": spec, "ops": []})
@@ -335,6 +340,16 @@ def drive_machine(ctx: Ctx) -> None:
         def setup(self, c, unsorted, data):
             self.max_tick = c["max_tick"]
             spec = c["spec"]
+            sel = data.draw(st.integers(0, 5))
+            if sel <= 1:
+                spec = dict(spec)
+                present = list(spec["tracks"])
+                if sel == 0 or not present:
+                    spec["want"] = []
+                else:
+                    spec["want"] = data.draw(st.lists(st.sampled_from(present + ["ExpertDrums", "EasyGHLBass"]),
+                                                      max_size=4))
+                ctx.classes["parsed_with_selection"] += 1
             if unsorted == 0:
                 # a chart whose body lines are NOT in tick order is a chart too (it parses as long as the
                 # lookup hints cannot object, i.e. over a single tempo): tick groups are permuted
@@ -442,6 +457,8 @@ def fixed_cases(ctx: Ctx):
     spec3 = {"res": 192, "sync": [[0, "TS", 4], [0, "B", 120000]], "events": [[50, "b"], [10, "a"]],
              "tracks": {"ExpertSingle": [[0, "N", 0, 0], [384, "N", 1, 40], [96, "N", 2, 0], [192, "N", 3, 500],
                                          [300, "S", 2, 10], [100, "S", 2, 10]]}}
+    yield {"spec": dict(spec1, want=[]), "ops": ops}
+    yield {"spec": dict(spec1, want=["HardSingle", "ExpertDrums"]), "ops": ops}
     yield {"spec": spec3, "ops": ops + [["nps", 0, 3, "none", 0, 0], ["nps", 0, 3, "tick_tick", 0, 400],
                                         ["nps", 0, 3, "time_time", 0, 5000000]]}
 
